@@ -15,5 +15,6 @@ CONSTANTS
   SignalOnInsert = TRUE
   FirstSighting = FALSE
   SeedAtomic = TRUE
+  RegisterInThunk = TRUE
 INVARIANTS M_C18_Replay M_C18_Alternate M_C18_Elide
 CHECK_DEADLOCK FALSE
